@@ -26,6 +26,8 @@ func init() {
 			ruleLabelFormatDirection(r)
 			ruleTemplateBinding(r)
 			ruleDropKeep(r)
+			ruleTemplatePerStage(r)
+			ruleRewriteLoopsWhole(r)
 			ruleValueStrGuarded(r)
 			ruleDecolorize(r)
 			ruleCHParseSites3(r)
